@@ -143,16 +143,14 @@ func init() {
 		if perr != "" {
 			return true, perr
 		}
-		var trimmedIn []string
-		for _, s := range args[2:] {
-			trimmedIn = append(trimmedIn, strings.TrimSpace(s))
+		// "the quoted inputs": element for element either the library's String() of each parsed input (what a front end of
+		// the library prints) or the raw argument text; printing one input twice and dropping another is neither
+		var libStrings []string
+		for _, v := range sorted {
+			libStrings = append(libStrings, v.String())
 		}
-		var trimmedOut []string
-		for _, s := range items {
-			trimmedOut = append(trimmedOut, strings.TrimSpace(s))
-		}
-		if !sameMultiset(trimmedIn, trimmedOut) {
-			return true, fmt.Sprintf("sort printed %q for inputs %q", items, args[2:])
+		if !sameMultiset(items, libStrings) && !sameMultiset(items, args[2:]) {
+			return true, fmt.Sprintf("sort printed %q for inputs %q (library strings %q)", items, args[2:], libStrings)
 		}
 		if why := c07Excluded(*e, args[2:]); why != "" {
 			return false, "order not claimed: " + why
@@ -174,8 +172,55 @@ func init() {
 // adding one would be a legitimate change)
 var c15NearMiss = []string{"NPM", "Npm", "npmm", "np", "mavn", "pypy", "golan", "debiann", "rubygem", "", "npm ", "vers2", "VERS", "alpine2", "maven3", "xyzzy"}
 
+// encodeSome rewrites 1-3 characters of s (or all of them) in an encoding that a front end might be tempted to decode:
+// URI percent escapes, Go/C backslash escapes, HTML entities. The library takes every string literally, so must the CLI.
+func encodeSome(rt *rapid.T, s, l string) string {
+	if s == "" {
+		return s
+	}
+	enc := func(c byte) string {
+		switch rapid.IntRange(0, 4).Draw(rt, l+"enc") {
+		case 0:
+			return fmt.Sprintf("%%%02X", c)
+		case 1:
+			return fmt.Sprintf("%%%02x", c)
+		case 2:
+			return fmt.Sprintf("\\x%02x", c)
+		case 3:
+			return fmt.Sprintf("&#%d;", c)
+		default:
+			return fmt.Sprintf("%%%02X", c)
+		}
+	}
+	if gen.Chance(rt, l+"all", 1, 6) {
+		var sb strings.Builder
+		for i := 0; i < len(s); i++ {
+			if c := s[i]; (c >= '0' && c <= '9') || (c >= 'a' && c <= 'z') || (c >= 'A' && c <= 'Z') || c == '.' || c == '/' || c == ':' {
+				sb.WriteByte(c)
+			} else {
+				sb.WriteString(fmt.Sprintf("%%%02X", c))
+			}
+		}
+		return sb.String()
+	}
+	n := rapid.IntRange(1, 3).Draw(rt, l+"n")
+	for k := 0; k < n && len(s) > 0; k++ {
+		i := rapid.IntRange(0, len(s)-1).Draw(rt, fmt.Sprintf("%si%d", l, k))
+		s = s[:i] + enc(s[i]) + s[i+1:]
+	}
+	return s
+}
+
 func c15Arg(rt *rapid.T, e eco.Eco, l string, wantRange bool) string {
-	switch rapid.IntRange(0, 11).Draw(rt, l+"k") {
+	switch rapid.IntRange(0, 12).Draw(rt, l+"k") {
+	case 12:
+		if wantRange {
+			base := gen.Version(rt, e.Name, l+"b")
+			if ri, ok := gen.DrawAnyRange(rt, e, base, l+"r"); ok {
+				return encodeSome(rt, ri.Text, l+"e")
+			}
+		}
+		return encodeSome(rt, gen.Version(rt, e.Name, l+"v"), l+"e")
 	case 0, 1, 2, 3, 4, 5:
 		if wantRange {
 			base := gen.Version(rt, e.Name, l+"b")
@@ -241,6 +286,16 @@ func TestC15(t *testing.T) {
 				arity = rapid.IntRange(0, 5).Draw(rt, "wa")
 			}
 			for i := 0; i < arity; i++ {
+				if cmd == "sort" && i > 0 && gen.Chance(rt, fmt.Sprintf("again%d", i), 1, 4) {
+					// an earlier argument once more: identical, differently padded or as an equal-comparing other spelling
+					prev := args[rapid.IntRange(0, i-1).Draw(rt, fmt.Sprintf("prev%d", i))]
+					a := gen.Pick(rt, fmt.Sprintf("lp%d", i), "", "", " ", "\t", "  ") + strings.TrimSpace(prev) + gen.Pick(rt, fmt.Sprintf("rp%d", i), "", "", " ", "\n")
+					if vars := gen.EqualVariants(e, strings.TrimSpace(prev)); len(vars) > 0 && gen.Chance(rt, fmt.Sprintf("var%d", i), 1, 3) {
+						a = vars[rapid.IntRange(0, len(vars)-1).Draw(rt, fmt.Sprintf("vi%d", i))]
+					}
+					args = append(args, a)
+					continue
+				}
 				args = append(args, c15Arg(rt, e, fmt.Sprintf("a%d", i), cmd == "contains" && i == 0))
 			}
 			full := append([]string{name, cmd}, args...)
@@ -265,6 +320,12 @@ func TestC15(t *testing.T) {
 				rng = gen.Corrupt(rt, rng, "cr")
 			case 1:
 				probe = c15Arg(rt, e, "hp", false)
+			case 2:
+				if gen.Chance(rt, "encwhat", 2, 3) {
+					rng = "vers:" + scheme + "/" + encodeSome(rt, joinVC(cs), "er")
+				} else {
+					rng = encodeSome(rt, rng, "er")
+				}
 			}
 			rng = strings.ReplaceAll(rng, "\x00", "")
 			args := []string{"vers", gen.Pick(rt, "vc", "contains", "contains", "contains", "contains", "compare", "sort", ""), rng, probe}
